@@ -66,6 +66,13 @@ def run(ctx) -> None:
         "destination (or created path) is join(walk root, name); exactly one yield per iteration",
         floor=8,
     )
+    generators(ctx, RA, RG, P)
+    rekeying(ctx, RA, P)
+
+
+def generators(ctx, RA, RG, P) -> None:
+    """The two synthetic-event generators (shared with C19: the path a synthetic event carries is the walked entry's own path,
+    of the caller's type, and its old path is the same relative path under the old directory)."""
     evm = P.module("watchdog.events")
     en = Enumerator(GenCfg(P))
     for gname, fam in (("generate_sub_moved_events", "Moved"), ("generate_sub_created_events", "Created")):
@@ -149,6 +156,9 @@ def run(ctx) -> None:
         ctx.check(kinds_seen == {"dirs", "files"}, RG, f"{gname} loops over both lists of the walk", f"loops found over {sorted(kinds_seen)}", loc)
         ctx.sample({"generator": gname, "inner_loops": [k for _, k in inner]})
 
+
+
+def rekeying(ctx, RA, P) -> None:
     # ---------------------------------------------------------------- reader re-keying
     bp, loop, rfi, _ = record_paths(P, fault=False)
     nrk = 0
